@@ -82,7 +82,7 @@ func (fx *FnExec) SymValue(st *State, t types.Type, name string, depth int) Valu
 		if IsErrorType(t) {
 			return ErrV{cx.Fresh(name, BV(8))}
 		}
-		return Opaque{"iface:" + name, t}
+		return Opaque{Name: "iface:" + name, T: t}
 	case *types.Map:
 		kw, ok1 := IsByteLike(u.Key())
 		vw, ok2 := IsByteLike(u.Elem())
@@ -91,9 +91,9 @@ func (fx *FnExec) SymValue(st *State, t types.Type, name string, depth int) Valu
 			st.Heap[o] = MapContent{Present: cx.Fresh(name+".present", Arr(64, 1)), Val: cx.Fresh(name+".val", Arr(64, vw)), KW: kw, VW: vw}
 			return MapV{Nil: cx.Fresh(name+".nil", Bool), Obj: o}
 		}
-		return Opaque{"map:" + name, t}
+		return Opaque{Name: "map:" + name, T: t}
 	case *types.Signature:
-		return Opaque{"func:" + name, t}
+		return Opaque{Name: "func:" + name, T: t}
 	}
 	panic(Unsupported{"symbolic value of type " + t.String()})
 }
@@ -240,7 +240,7 @@ func (fx *FnExec) havocValue(st *State, v Value, t types.Type, name string) Valu
 	case Opaque:
 		return x
 	case IfaceV:
-		return Opaque{"havoc-iface", t}
+		return Opaque{Name: "havoc-iface", T: t}
 	case *rangeIter:
 		return &rangeIter{X: x.X, Pos: fx.Cx.Fresh(name+".pos", BV(64))}
 	}
@@ -506,11 +506,17 @@ func (fx *FnExec) EqContent(a Content, aoff *Term, b Content, boff *Term, n *Ter
 // EvalPure runs fn on args from state st without emitting obligations and merges all returns into one value.
 // fuel: nesting depth up to which calls of functions of fn's own package are unfolded (deeper ones are opaque).
 func (fx *FnExec) EvalPure(fn *ssa.Function, args []Value, st *State, fuel int, opaque map[string]bool) Value {
+	return fx.EvalPureCB(fn, args, st, fuel, opaque, nil)
+}
+
+// EvalPureCB: as EvalPure; onOpaque is told about every nested call that was left uninterpreted.
+func (fx *FnExec) EvalPureCB(fn *ssa.Function, args []Value, st *State, fuel int, opaque map[string]bool, onOpaque func(f *ssa.Function, args []Value, res Value)) Value {
 	sub := &FnExec{Cx: fx.Cx, Fn: fn, ordinals: map[ssa.Instruction]map[string]int{}, Trusted: fx.Trusted, Inlined: map[string]bool{}, Applied: map[string]bool{}}
 	sub.mute = true
 	sub.SpecOpaque = func(f *ssa.Function, depth int) bool {
 		return f.Pkg == fn.Pkg && (depth >= fuel || opaque[f.Name()])
 	}
+	sub.OnOpaque = onOpaque
 	s0 := st.Clone()
 	base := len(s0.PC)
 	type res struct {
